@@ -107,8 +107,15 @@ def confirm_main(sc):
         for i, src in files.items(): open(os.path.join(d, 'f%d.circom' % i), 'w').write('pragma circom 2.0.0;\n' + incl[i] + src)
         interesting = {'CS0001', 'CS0005', 'P1000'}
         args = [os.path.join(d, 'f%d.circom' % i) for i in user] + extra_args + ['--level', sc['level'].upper()]
+        # the scenario's own allow list first, in its order (mapped to the real ids), then the noise suppression, ascending
+        first = []
+        for x in sc['allow']:
+            if x in allow_real and x not in first: first.append(x)
+        for x in sorted(allow_real):
+            if x not in first: first.append(x)
+        for x in first: args += ['--allow', x]
         for x in all_ids():
-            if x not in interesting or x in allow_real: args += ['--allow', x]
+            if x not in interesting: args += ['--allow', x]
         sarif = os.path.join(d, 'out.sarif')
         if sc.get('sarif'): args += ['--sarif-file', sarif]
         if sc.get('verbose'): args += ['--verbose']
@@ -162,7 +169,7 @@ def confirm_runner(sc):
             if tmpl:
                 comp = ''
                 l = df.get('looks_up')
-                if l is not None and l != i:
+                if l is not None:
                     comp = '    component c = d%d(n);\n    c.x <== x;\n' % l
                 src = 'template d%d(n) {\n    signal input x;\n    signal output y;\n%s%s    y <== x;\n}\n' % (i, body, comp)
             else:
